@@ -27,6 +27,15 @@ func Root() string {
 	return "/verif"
 }
 
+// OutDir is where evidence and replays are written (VERIF_OUT overrides; used by drills so
+// that runs against scratch copies do not overwrite the evidence of /repo).
+func OutDir() string {
+	if r := os.Getenv("VERIF_OUT"); r != "" {
+		return r
+	}
+	return filepath.Join(Root(), "evidence")
+}
+
 // Case is one deterministic unit of work.
 type Case struct {
 	Idx  int
@@ -252,7 +261,7 @@ func (c *Ctx) Violate(cs Case, class string, attrs map[string]string, detail str
 		"class": class, "attrs": attrs, "detail": detail, "data": replay}
 	b, _ := json.MarshalIndent(rep, "", " ")
 	h := sha256.Sum256(b)
-	dir := filepath.Join(Root(), "evidence", "replays", c.Prop)
+	dir := filepath.Join(OutDir(), "replays", c.Prop)
 	os.MkdirAll(dir, 0o755)
 	p := filepath.Join(dir, hex.EncodeToString(h[:8])+".json")
 	os.WriteFile(p, b, 0o644)
@@ -401,8 +410,8 @@ func (c *Ctx) Finish() int {
 	}
 	if c.Only < 0 {
 		b, _ := json.MarshalIndent(evd, "", " ")
-		os.MkdirAll(filepath.Join(Root(), "evidence"), 0o755)
-		if err := os.WriteFile(filepath.Join(Root(), "evidence", c.Prop+".json"), append(b, '\n'), 0o644); err != nil {
+		os.MkdirAll(OutDir(), 0o755)
+		if err := os.WriteFile(filepath.Join(OutDir(), c.Prop+".json"), append(b, '\n'), 0o644); err != nil {
 			fmt.Fprintf(os.Stderr, "cannot write evidence: %v\n", err)
 			return 2
 		}
